@@ -1,11 +1,237 @@
+import Afkak.Group
+import Afkak.Monitor.C16
+import Afkak.Monitor.C17
 import Driver.Util
-/-! Driver for the `Group` component (stub until the component is built). -/
-namespace Driver.Group
+/-!
+Line-protocol driver for the group model (exe `model_group`).
 
-def step (st : Unit) (_line : String) : Unit × List String := (st, ["bad-op"])
+  reset <initialMs> <retryMs> <fatalMs> <heartbeatMs>     -> ok
+  ev <event>                                              -> one line per observation, `snap …`, `st …`
+  mon-reset <initialMs> <retryMs> <fatalMs> <heartbeatMs> -> ok        (start an observed trace)
+  mon-ev <event> / mon-ob <observation> / mon-snap <snapshot>          (snapshot closes the step)
+  mon-end C16|C17                                         -> ok | fail <names…>
+  mon-model C16|C17                                       -> the same monitors on the model's own trace since `reset`
+-/
+namespace Driver.Group
+open Afkak.Group Afkak.Consts Driver
+
+def parseErr (s : String) : Option GErr := GErr.all.find? (·.name == s)
+
+def parseRat (s : String) : Option Rat :=
+  match s.splitOn "/" with
+  | [n] => n.toInt?.map fun i => (i : Rat)
+  | [n, d] => do
+    let i ← n.toInt?; let k ← d.toNat?
+    if k = 0 then none else some ((i : Rat) / (k : Rat))
+  | _ => none
+
+def showRat (r : Rat) : String := if r.den = 1 then toString r.num else s!"{r.num}/{r.den}"
+
+def parseOptInt (s : String) : Option (Option Int) :=
+  if s == "-" then some none else s.toInt?.map some
+
+def showOptInt : Option Int → String
+  | none => "-"
+  | some i => toString i
+
+/-- `ok` | `err:<kind>` -/
+def parseRes (s : String) : Option Res :=
+  if s == "ok" then some .ok
+  else if s.startsWith "err:" then (parseErr (s.drop 4).toString).map .err else none
+
+/-- assignment `-` or `topic:p,p;topic:p` -/
+def parseAsg (s : String) : Option (List (Nat × List Int)) :=
+  if s == "-" then some [] else
+  (s.splitOn ";").mapM fun tp =>
+    match tp.splitOn ":" with
+    | [t, ps] => do
+      let t ← t.toNat?
+      let ps ← parseInts ps
+      some (t, ps)
+    | _ => none
+
+def parseBool01 (s : String) : Option Bool :=
+  if s == "1" then some true else if s == "0" then some false else none
+
+def parseEv : List String → Option Ev
+  | ["start"] => some .start
+  | ["stop"] => some .stop
+  | ["coordDone", "ok"] => some (.coordDone .ok)
+  | ["coordDone", "none"] => some (.coordDone .none)
+  | ["coordDone", r] => match parseRes r with | some (.err e) => some (.coordDone (.err e)) | _ => none
+  | ["metaDone", r] => (parseRes r).map .metaDone
+  | ["joinDone", "ok", m, g, l, n] => do
+    let m ← m.toNat?; let g ← g.toInt?; let l ← parseBool01 l; let n ← n.toNat?
+    some (.joinDone (.ok m g l n))
+  | ["joinDone", r] => match parseRes r with | some (.err e) => some (.joinDone (.err e)) | _ => none
+  | ["partsDone", r] => (parseRes r).map .partsDone
+  | ["syncDone", "ok", a] => (parseAsg a).map fun a => .syncDone (.ok a)
+  | ["syncDone", r] => match parseRes r with | some (.err e) => some (.syncDone (.err e)) | _ => none
+  | ["hbDone", r] => (parseRes r).map .hbDone
+  | ["leaveDone", r] => (parseRes r).map .leaveDone
+  | ["consumerDown", c, "ok"] => c.toNat?.map fun c => .consumerDown c true
+  | ["consumerDown", c, "err"] => c.toNat?.map fun c => .consumerDown c false
+  | ["consumerErr", c, e] => do let c ← c.toNat?; let e ← parseErr e; some (.consumerErr c e)
+  | ["fire", i] => i.toNat?.map .fire
+  | ["advance", d] => (parseRat d).map .advance
+  | _ => none
+
+def showKind : TKind → String | .rejoin => "rejoin" | .retry => "retry" | .hb => "hb"
+def parseKind : String → Option TKind
+  | "rejoin" => some .rejoin | "retry" => some .retry | "hb" => some .hb | _ => none
+def showReq : ReqKind → String
+  | .coordR => "coord" | .metaR => "meta" | .joinR => "join" | .partsR => "parts" | .syncR => "sync" | .hbR => "hb"
+def parseReq : String → Option ReqKind
+  | "coord" => some .coordR | "meta" => some .metaR | "join" => some .joinR | "parts" => some .partsR
+  | "sync" => some .syncR | "hb" => some .hbR | _ => none
+
+def showErrOpt : Option GErr → String
+  | none => "ok"
+  | some e => "err:" ++ e.name
+
+def showOb : Ob → String
+  | .coordLookup => "coordLookup"
+  | .loadMeta => "loadMeta"
+  | .join m => s!"join {m}"
+  | .loadParts => "loadParts"
+  | .sync g m n => s!"sync {showOptInt g} {m} {n}"
+  | .heartbeat g m => s!"heartbeat {showOptInt g} {m}"
+  | .leave m => s!"leave {m}"
+  | .resetGroupMeta => "resetGroupMeta"
+  | .consumerStart c t p g m off => s!"consumerStart {c} {t} {p} {showOptInt g} {m} {off}"
+  | .consumerShutdown c => s!"consumerShutdown {c}"
+  | .consumerStop c => s!"consumerStop {c}"
+  | .startFired r => s!"startFired {showErrOpt r}"
+  | .stopFired r => "stopFired " ++ (if r then "restop" else "ok")
+  | .setTimer i k d => s!"setTimer {i} {showKind k} {showRat d}"
+  | .cancelTimer i => s!"cancelTimer {i}"
+  | .cancelReq k => s!"cancelReq {showReq k}"
+  | .raised w => s!"raise {w}"
+  | .badOp => "bad-op"
+
+def parseOb : List String → Option Ob
+  | ["coordLookup"] => some .coordLookup
+  | ["loadMeta"] => some .loadMeta
+  | ["join", m] => m.toNat?.map .join
+  | ["loadParts"] => some .loadParts
+  | ["sync", g, m, n] => do let g ← parseOptInt g; let m ← m.toNat?; let n ← n.toNat?; some (.sync g m n)
+  | ["heartbeat", g, m] => do let g ← parseOptInt g; let m ← m.toNat?; some (.heartbeat g m)
+  | ["leave", m] => m.toNat?.map .leave
+  | ["resetGroupMeta"] => some .resetGroupMeta
+  | ["consumerStart", c, t, p, g, m, off] => do
+    let c ← c.toNat?; let t ← t.toNat?; let p ← p.toInt?; let g ← parseOptInt g; let m ← m.toNat?; let off ← off.toInt?
+    some (.consumerStart c t p g m off)
+  | ["consumerShutdown", c] => c.toNat?.map .consumerShutdown
+  | ["consumerStop", c] => c.toNat?.map .consumerStop
+  | ["startFired", "ok"] => some (.startFired none)
+  | ["startFired", r] => match parseRes r with | some (.err e) => some (.startFired (some e)) | _ => none
+  | ["stopFired", "ok"] => some (.stopFired false)
+  | ["stopFired", "restop"] => some (.stopFired true)
+  | ["setTimer", i, k, d] => do let i ← i.toNat?; let k ← parseKind k; let d ← parseRat d; some (.setTimer i k d)
+  | ["cancelTimer", i] => i.toNat?.map .cancelTimer
+  | ["cancelReq", k] => (parseReq k).map .cancelReq
+  | ["raise", w] => some (.raised w)
+  | ["bad-op"] => some .badOp
+  | _ => none
+
+def b01 (b : Bool) : String := if b then "1" else "0"
+
+def showPhase : Phase → String | .running => "r" | .draining => "d" | .stopped => "s"
+def parsePhase : String → Option Phase
+  | "r" => some .running | "d" => some .draining | "s" => some .stopped | _ => none
+
+def showCon (c : Con) : String :=
+  s!"{c.cid}:{c.topic}:{c.part}:{showOptInt c.gen}:{c.member}:{showPhase c.phase}:{b01 c.held}:{b01 c.startFired}"
+
+def parseCon (s : String) : Option Con :=
+  match s.splitOn ":" with
+  | [c, t, p, g, m, ph, h, f] => do
+    let c ← c.toNat?; let t ← t.toNat?; let p ← p.toInt?; let g ← parseOptInt g; let m ← m.toNat?
+    let ph ← parsePhase ph; let h ← parseBool01 h; let f ← parseBool01 f
+    some { cid := c, topic := t, part := p, gen := g, member := m, phase := ph, held := h, startFired := f }
+  | _ => none
+
+def showSnap (sn : Snap) : String :=
+  s!"snap started={b01 sn.started} stopping={b01 sn.stopping} jif={b01 sn.joinInFlight} needed={b01 sn.rejoinNeeded} " ++
+  s!"hb={b01 sn.hbRunning} hbif={b01 sn.hbInFlight} sf={b01 sn.startFired} jt={sn.joinTimers} ht={sn.hbTimers} " ++
+  s!"member={sn.member} gen={showOptInt sn.gen} cons=" ++
+  (if sn.cons.isEmpty then "-" else ",".intercalate (sn.cons.map showCon))
+
+def field (kvs : List (String × String)) (k : String) : Option String := (kvs.find? (·.1 == k)).map (·.2)
+
+def parseSnap (ws : List String) : Option Snap := do
+  let kvs ← ws.mapM fun w => match w.splitOn "=" with | [k, v] => some (k, v) | _ => none
+  let gb := fun k => (field kvs k).bind parseBool01
+  let gn := fun k => (field kvs k).bind String.toNat?
+  let cons ← (field kvs "cons").bind fun v => if v == "-" then some [] else (v.splitOn ",").mapM parseCon
+  some { started := ← gb "started", stopping := ← gb "stopping", joinInFlight := ← gb "jif", rejoinNeeded := ← gb "needed",
+         hbRunning := ← gb "hb", hbInFlight := ← gb "hbif", startFired := ← gb "sf", joinTimers := ← gn "jt",
+         hbTimers := ← gn "ht", member := ← gn "member", gen := ← (field kvs "gen").bind parseOptInt, cons := cons }
+
+def showJPc : JPc → String
+  | .idle => "idle" | .coordLookup => "coordLookup" | .metaLoad => "metaLoad" | .prepare => "prepare"
+  | .join => "join" | .loadParts _ => "loadParts" | .sync => "sync"
+
+/-- the rest of the state the harness compares: timers with due times, `_rejoin_wait_dc`,
+    coroutine position, `coordinator_broker`, pending leave, time. -/
+def showSt (s : St) : String :=
+  let ts := s.timers.map fun t => s!"{t.id}:{showKind t.kind}:{showRat t.due}"
+  s!"st now={showRat s.now} jpc={showJPc s.jpc} dc=" ++ (match s.rejoinWaitDc with | none => "-" | some i => toString i) ++
+  s!" broker={b01 s.coordBroker} leave={b01 s.leaveWait.isSome} stops={s.stops.length} timers=" ++
+  (if ts.isEmpty then "-" else ",".intercalate ts)
+
+structure DSt where
+  cfg : Cfg := Cfg.default
+  st : St := init
+  trace : List MStep := []        -- the model's own trace since `reset` (reversed)
+  mcfg : Cfg := Cfg.default
+  mtrace : List MStep := []       -- the observed trace being assembled (reversed)
+  mev : Option Ev := none
+  mobs : List Ob := []            -- reversed
+
+def parseCfg : List String → Option Cfg
+  | [a, b, c, d] => do
+    let a ← a.toNat?; let b ← b.toNat?; let c ← c.toNat?; let d ← d.toNat?
+    some { initialBackoffMs := a, retryBackoffMs := b, fatalBackoffMs := c, heartbeatMs := d }
+  | _ => none
+
+def verdict (pid : String) (cfg : Cfg) (tr : List MStep) : List String :=
+  let f := if pid == "C16" then some (Afkak.Monitor.C16.failing tr)
+           else if pid == "C17" then some (Afkak.Monitor.C17.failing cfg tr) else none
+  match f with
+  | none => ["bad-op"]
+  | some [] => ["ok"]
+  | some l => ["fail " ++ " ".intercalate l]
+
+def step (d : DSt) (line : String) : DSt × List String :=
+  match words line with
+  | "reset" :: rest => match parseCfg rest with
+    | some c => ({ d with cfg := c, st := init, trace := [] }, ["ok"])
+    | none => (d, ["bad-op"])
+  | "ev" :: rest => match parseEv rest with
+    | some e =>
+      let r := Afkak.Group.step d.cfg d.st e
+      ({ d with st := r.1, trace := ⟨e, r.2, snap r.1⟩ :: d.trace },
+       r.2.map showOb ++ [showSnap (snap r.1), showSt r.1])
+    | none => (d, ["bad-op"])
+  | "mon-reset" :: rest => match parseCfg rest with
+    | some c => ({ d with mcfg := c, mtrace := [], mev := none, mobs := [] }, ["ok"])
+    | none => (d, ["bad-op"])
+  | "mon-ev" :: rest => match parseEv rest with
+    | some e => ({ d with mev := some e, mobs := [] }, ["ok"])
+    | none => (d, ["bad-op"])
+  | "mon-ob" :: rest => match parseOb rest with
+    | some o => ({ d with mobs := o :: d.mobs }, ["ok"])
+    | none => (d, ["bad-op"])
+  | "mon-snap" :: rest => match d.mev, parseSnap rest with
+    | some e, some sn => ({ d with mtrace := ⟨e, d.mobs.reverse, sn⟩ :: d.mtrace, mev := none, mobs := [] }, ["ok"])
+    | _, _ => (d, ["bad-op"])
+  | ["mon-end", pid] => (d, verdict pid d.mcfg d.mtrace.reverse)
+  | ["mon-model", pid] => (d, verdict pid d.cfg d.trace.reverse)
+  | _ => (d, ["bad-op"])
 
 end Driver.Group
 
 def main : IO UInt32 := do
-  Driver.loop (← IO.getStdin) (← IO.getStdout) () Driver.Group.step
+  Driver.loop (← IO.getStdin) (← IO.getStdout) ({} : Driver.Group.DSt) Driver.Group.step
   return 0
